@@ -147,6 +147,15 @@ pub fn gather(
     for (i, (mb_type, mv)) in mb_types.iter().zip(mvs.iter()).enumerate() {
         if mb_type.is_inter() {
             let reference_picture = reference_picture.ok_or(Error::UncodedIFrameBlocks)?;
+
+            // The blocks below are addressed with the reference picture's row
+            // length; predicting from a picture of another size would need
+            // reference picture resampling (H.263 Annex P).
+            if reference_picture.format().into_width_and_height()
+                != new_picture.format().into_width_and_height()
+            {
+                return Err(Error::UnimplementedDecoding);
+            }
             let luma_samples_per_row = reference_picture.luma_samples_per_row();
             let pos = ((i % mb_per_line) * 16, (i / mb_per_line) * 16);
 
